@@ -75,6 +75,13 @@ def c01(rec):
                     out.append(('c01:unit:%s' % op['op'], 'amount %s violates min/max/step %s of %s' % (n, row[4:7], k)))
                 if capacity(row) < um.get(k, 0):
                     out.append(('c01:capacity:%s' % op['op'], 'usage %s exceeds capacity %r on %s after accepted write' % (um.get(k), capacity(row), k)))
+    # usage on a (provider, class) that has no inventory is usage above a capacity of nothing: whatever request left it
+    # behind (e.g. a reshape that drops a class other consumers hold)
+    imb = inv_map(rec.before)
+    for (rp, c, rc, used) in rec.after['allocs']:
+        if (rp, rc) not in im and ((rp, rc) in imb or [rp, c, rc, used] not in [list(x) for x in rec.before['allocs']]):
+            out.append(('c01:usage-without-inventory:%s' % op['op'], '%s holds %s of %s on %s, which has no such inventory after the request (status %s)'
+                        % (c, used, rc, rp, rec.resp.status)))
     ob, oa = over_committed(rec.before), over_committed(rec.after)
     ub = usage_map(rec.before)
     targets = inv_targets(op)
